@@ -33,7 +33,9 @@ def gen_case(seed, thorough_big=False):
     prefs = [r.random() < 0.6 for _ in range(40)]
     if r.random() < 0.2:
         inject_fault(M, r)
-    if r.random() < 0.3:
+    if r.random() < 0.3 and not M.get("faulty"):
+        # (not for fault-injected models: with a location both urgent and committed the outcome legitimately depends on
+        #  which list comes first in the XTA text -- XML always marks commit first)
         M["vary_xta"] = True      # commit/urgent lists split and in the other order, comments: only the documents are compared
     return M, prefs
 
